@@ -395,12 +395,44 @@ fn run_in_child(world: &World, plan: &Plan, probes: &Probes, seed: u64, replay: 
 		let chain = chain.clone();
 		let blocks = blocks.clone();
 		let n = blocks.len();
+		let template_viols = shared.clone();
+		let template_targets: Vec<usize> = {
+			let mut t: Vec<usize> = (1..world.blocks.len()).filter(|i| !plan.pre.contains(i)).collect();
+			t.sort_by_key(|i| (world.blocks[*i].height, *i));
+			t
+		};
 		handles.push(sched::spawn("template", move || {
 			global::set_local_chain_type(global::ChainTypes::AutomatedTesting);
-			for k in 0..3 {
-				let mut b = blocks[n - 1 - (k % n.max(1)).min(n - 1)].clone();
-				// Ok or a clean error (parent state not there yet); never a panic or a hang
-				let _ = chain.set_txhashset_roots(&mut b);
+			// a miner: as soon as the parent of one of the blocks still to come is in, build a template
+			// for that very block - at the moment the peers are about to deliver it or a competitor
+			let mut targets: Vec<usize> = template_targets.clone();
+			targets.truncate(6);
+			for k in 0..(3 + targets.len()) {
+				let orig = if k < 3 { &blocks[n - 1 - (k % n.max(1)).min(n - 1)] } else { &blocks[targets[k - 3]] };
+				if k >= 3 {
+					let mut spins = 0;
+					while !chain.block_exists(orig.header.prev_hash).unwrap_or(false) && spins < 3000 {
+						sched::yield_point("wait-parent", None);
+						spins += 1;
+					}
+				}
+				let mut b = orig.clone();
+				// Ok or a clean error (parent state not there yet); never a panic or a hang.
+				// When it succeeds the template must have been built on the block's own parent state,
+				// whatever was committed around the call: the roots and sizes are then exactly the
+				// ones the world's builder computed for this very block.
+				if chain.set_txhashset_roots(&mut b).is_ok() {
+					let (h, o) = (&b.header, &orig.header);
+					if h.output_root != o.output_root || h.range_proof_root != o.range_proof_root || h.kernel_root != o.kernel_root || h.output_mmr_size != o.output_mmr_size || h.kernel_mmr_size != o.kernel_mmr_size || h.prev_root != o.prev_root {
+						template_viols.lock().unwrap().violations.push((
+							"template-built-on-wrong-state".into(),
+							format!(
+								"set_txhashset_roots for the block at height {} returned Ok with sizes ({}, {}) / roots that differ from those of the same block built on its parent state (sizes ({}, {})): the template was computed on top of another block",
+								o.height, h.output_mmr_size, h.kernel_mmr_size, o.output_mmr_size, o.kernel_mmr_size
+							),
+						));
+					}
+				}
 			}
 		}));
 	}
@@ -434,6 +466,11 @@ fn run_in_child(world: &World, plan: &Plan, probes: &Probes, seed: u64, replay: 
 	}
 	for p in &out.panics {
 		viols.push(("panic".into(), p.clone()));
+	}
+	if out.out_of_steps {
+		// ordinary runs need a few thousand scheduling points; after 400 000 the threads that are left
+		// only spin (sleep / retry loops that wait for something that never happens)
+		viols.push(("no-progress".into(), format!("threads still running after {} scheduling points (livelock): last points {:?}", out.trace.len(), out.trace.iter().rev().take(6).map(|(t, l)| format!("{}:{}", out.names.get(*t as usize).cloned().unwrap_or_default(), l)).collect::<Vec<_>>())));
 	}
 	let trace_digest = {
 		let mut bytes = vec![];
